@@ -1,4 +1,6 @@
 import AsyncsshModel.Lemmas.Path
+import AsyncsshModel.Lemmas.PathGlob
+import AsyncsshModel.Gen.C13
 /-
   C13 — File serving and downloading never leave their directory.
   Property theorems only (helper lemmas live in Lemmas/Path.lean).
@@ -340,5 +342,107 @@ theorem sftp_get_example :
     copyEntries [] [.dir [100] [.file [46, 46], .file [97]], .file [46, 46, 47, 120], .file [98]]
       = ([[[100]], [[100], [97]]], true) := by
   simp [copyEntries, getNameVerdict, dot, dotdot, slash]
+
+/-! ### glob downloads (`mget`) -/
+
+theorem beginCopy_confined (dir : Bytes) (ms : List Entry) (hs : ∀ e ∈ ms, GetSafe e.name) :
+    ∀ path ∈ (beginCopy dir ms).1, path ≠ [] ∧ ∀ c ∈ path, GetSafe c := by
+  induction ms with
+  | nil => simp [beginCopy]
+  | cons e rest ih =>
+    have hrest : ∀ e ∈ rest, GetSafe e.name := fun e' he' => hs e' (by simp [he'])
+    have he : GetSafe e.name := hs e (by simp)
+    cases e with
+    | file n =>
+      have htop : basename (join dir n) = n := basename_join_noslash dir n he.2.2
+      intro path hp
+      simp only [beginCopy, htop, List.mem_cons] at hp
+      rcases hp with rfl | hp
+      · exact ⟨by simp, fun c hc => by simp at hc; subst hc; exact he⟩
+      · exact ih hrest path hp
+    | dir n ch =>
+      have htop : basename (join dir n) = n := basename_join_noslash dir n he.2.2
+      have hpre : ∀ c ∈ [n], GetSafe c := fun c hc => by simp at hc; subst hc; exact he
+      have hch := copyEntries_confined_aux [n] ch hpre
+      intro path hp
+      simp only [beginCopy, htop] at hp
+      split at hp
+      · simp only [List.mem_cons] at hp
+        rcases hp with rfl | hp
+        · exact ⟨by simp, hpre⟩
+        · exact hch path hp
+      · simp only [List.mem_cons, List.mem_append] at hp
+        rcases hp with (rfl | hp) | hp
+        · exact ⟨by simp, hpre⟩
+        · exact hch path hp
+        · exact ih hrest path hp
+
+/-- **Witness of the `mget` defect (repaired by a `fix:` commit)**: before the repair (`fixed = false`) the glob
+    accepts the listing name `x/..`; `_begin_copy` takes the basename of the match `/src/x/..` — `..` — as the
+    local name, and the directory the server presents under that name is merged into the PARENT of the
+    destination the caller named: the file `pwn` is written to `dest/../pwn`. -/
+theorem old_mget_dotdot_basename_escapes :
+    let src : Bytes := [47, 115, 114, 99]        -- "/src"
+    let name : Bytes := [120, 47, 46, 46]        -- "x/.."
+    let pwn : Bytes := [112, 119, 110]           -- "pwn"
+    globNameVerdict false name = .use ∧ basename (join src name) = dotdot ∧
+    mget false src [.dir name [.file pwn]] = ([[dotdot], [dotdot, pwn]], false) ∧
+    mget true src [.dir name [.file pwn]] = ([], true) := by
+  refine ⟨by decide, by decide, ?_, ?_⟩
+  · simp [mget, globMatches, globNameVerdict, beginCopy, copyEntries, getNameVerdict, basename, join, splitSlash,
+      Entry.name, dot, dotdot, slash]
+  · simp [mget, globMatches, globNameVerdict, Entry.name, dot, dotdot, slash]
+
+/-- **glob downloads are confined, for every listing a server can present** ("a download … creates or modifies
+    nothing outside the destination the caller named, whatever file names the remote side supplies"): with the
+    check found in `SFTPGlob._match_pattern` by the translator (`Gen.C13.globRejectsSlash`), every path
+    `mget(dir/*, dest, recurse=True)` creates is a non-empty list of components below the destination, none of
+    which is `.`, `..` or contains a `/` — at the top level (the basename of the match is the listed name) and
+    below it.  Stops building if the check goes away. -/
+theorem mget_confined (dir : Bytes) (es : List Entry) :
+    ∀ path ∈ (mget Gen.C13.globRejectsSlash dir es).1, path ≠ [] ∧ ∀ c ∈ path, c ≠ dotdot ∧ slash ∉ c := by
+  have hflag : Gen.C13.globRejectsSlash = true := rfl
+  rw [hflag]
+  intro path hp
+  unfold mget at hp
+  cases hm : globMatches true es with
+  | none => rw [hm] at hp; simp at hp
+  | some ms =>
+    rw [hm] at hp
+    obtain ⟨h1, h2⟩ := beginCopy_confined dir ms (globMatches_safe es ms hm) path hp
+    exact ⟨h1, fun c hc => ⟨(h2 c hc).2.1, (h2 c hc).2.2⟩⟩
+
+/-- non-vacuity: a listing with a skipped `..`, a file and a directory is downloaded below the destination -/
+theorem mget_example :
+    mget true [47, 115, 114, 99] [.file dotdot, .file [97], .dir [100] [.file [98]]]
+      = ([[[97]], [[100]], [[100], [98]]], false) := by
+  simp [mget, globMatches, globNameVerdict, beginCopy, copyEntries, getNameVerdict, basename, join, splitSlash,
+    Entry.name, dot, dotdot, slash]
+
+/-! ### `readlink` under a chroot -/
+
+/-- **Witness of the `readlink` defect (repaired by a `fix:` commit)**: before the repair the relative target of
+    a link is resolved as it stands, i.e. from the current directory of the server process: the same link gives
+    different paths to resolve — none of them below the chroot — for different server directories. -/
+theorem old_readlink_depends_on_server_cwd :
+    let root : Bytes := [47, 115]                -- chroot "/s"
+    let link : Bytes := [47, 115, 47, 108]       -- the client's path "/s/l" of a link whose target is "f"
+    let lp := mapPath root link
+    readlinkBase false [47, 97] lp [102] = [47, 97, 47, 102] ∧          -- server cwd "/a": resolves "/a/f"
+    readlinkBase false [47, 98] lp [102] = [47, 98, 47, 102] ∧          -- server cwd "/b": resolves "/b/f"
+    readlinkAnswer false root [47, 97] link [102] = none ∧              -- … outside the chroot: "File not found"
+    readlinkAnswer true root [47, 97] link [102] = some [47, 115, 47, 102] := by   -- repaired: "/s/f"
+  decide +kernel
+
+/-- **readlink does not consult the server's current directory** ("touches no file or directory outside that
+    root"): with the repair found by the translator (`Gen.C13.readlinkFromLinkDir`) the path that is resolved for a
+    link is determined by the link's own (mapped) path and its target; for a relative target it is the target
+    joined onto the directory of the link.  Stops building if the repair goes away. -/
+theorem readlink_independent_of_cwd (cwd cwd' lp t : Bytes) :
+    readlinkBase Gen.C13.readlinkFromLinkDir cwd lp t = readlinkBase Gen.C13.readlinkFromLinkDir cwd' lp t ∧
+    readlinkBase Gen.C13.readlinkFromLinkDir cwd lp t = join (dirname lp) t := by
+  have hflag : Gen.C13.readlinkFromLinkDir = true := rfl
+  rw [hflag]
+  exact ⟨rfl, rfl⟩
 
 end AsyncsshModel.C13
